@@ -94,6 +94,65 @@ def verify(src, sid, patch="patch.diff", demo="demo.py"):
     return ok
 
 
+def rebase(ids, edit=None):
+    """tools/seeded.py rebase [<id> ...]: after a fix: commit in /repo moved the context of a kept change, re-create its
+    patch against the new HEAD (patch -p1 with fuzz; optional hand edit `<dir>/port.py <worktree>` for a hunk that really
+    conflicts) and confirm it again exactly as `verify` / `verify-neutral` did (demo passes without, fails / passes with)."""
+    todo = []
+    for kind in ("seeded", "seeded_neutral"):
+        base = os.path.join(VERIF, kind)
+        for sid in sorted(os.listdir(base)):
+            d = os.path.join(base, sid)
+            if not os.path.isfile(os.path.join(d, "patch.diff")) or (ids and sid not in ids):
+                continue
+            rc, _ = sh("git -C %s apply --check %s" % (REPO, os.path.join(d, "patch.diff")))
+            if rc:
+                todo.append((kind, sid, d))
+    for kind, sid, d in todo:
+        meta = json.load(open(os.path.join(d, "meta.json")))
+        with Worktree() as wt:
+            rc, out = sh("patch -p1 -F3 --no-backup-if-mismatch < %s" % os.path.join(d, "patch.diff"), cwd=wt)
+            sh("find . -name '*.rej' -delete -o -name '*.orig' -delete", cwd=wt)
+            port = os.path.join(d, "port.py")
+            if rc and os.path.exists(port):
+                rc2, out2 = sh("python3 %s %s" % (port, wt))
+                rc = rc2
+                out += out2
+            if rc:
+                print("%-9s CONFLICT (needs a port.py): %s" % (sid, out.strip().splitlines()[-1] if out.strip() else ""))
+                continue
+            rc, diff = sh("git diff", cwd=wt)
+        src_wt = meta.get("demo_worktree_path") or "/tmp/rebase/%s" % sid
+        src = os.path.join(src_wt, "_out")
+        made = not os.path.exists(src_wt)
+        os.makedirs(src, exist_ok=True)
+        try:
+            for name in os.listdir(d):
+                if name.endswith((".py", ".md")) and name != "port.py":
+                    shutil.copy(os.path.join(d, name), os.path.join(src, name))
+            with open(os.path.join(src, "patch.diff"), "w") as fh:
+                fh.write(diff)
+            if kind == "seeded":
+                ok = verify(src, sid)
+            else:
+                keep = {k: meta[k] for k in ("accept_undecided", "accept_undecided_reason", "excluded") if k in meta}
+                ok = verify_neutral(src, sid, "patch.diff")
+                if ok and keep:
+                    m2 = json.load(open(os.path.join(d, "meta.json")))
+                    m2.update(keep)
+                    json.dump(m2, open(os.path.join(d, "meta.json"), "w"), indent=1)
+            if ok:
+                m2 = json.load(open(os.path.join(d, "meta.json")))
+                m2["rebased_on"] = sh("git -C %s rev-parse --short HEAD" % REPO)[1].strip()
+                json.dump(m2, open(os.path.join(d, "meta.json"), "w"), indent=1)
+            print("%-9s %s" % (sid, "rebased and confirmed again" if ok else "REBASED PATCH NOT CONFIRMED"))
+        finally:
+            if made:
+                shutil.rmtree(src_wt, ignore_errors=True)
+            else:
+                shutil.rmtree(src, ignore_errors=True)
+
+
 def run(ids):
     base = os.path.join(VERIF, "seeded")
     ids = ids or sorted(d for d in os.listdir(base) if os.path.isdir(os.path.join(base, d)))
@@ -258,6 +317,8 @@ if __name__ == "__main__":
         fill_meta(sys.argv[2:])
     elif len(sys.argv) >= 5 and sys.argv[1] == "verify-neutral":
         sys.exit(0 if verify_neutral(sys.argv[2], sys.argv[3], sys.argv[4]) else 1)
+    elif len(sys.argv) >= 2 and sys.argv[1] == "rebase":
+        rebase(sys.argv[2:])
     elif len(sys.argv) >= 2 and sys.argv[1] == "run-neutral":
         run_neutral(sys.argv[2:])
     else:
